@@ -900,6 +900,9 @@ spectral_radius(const Matrix &A, int power_iters = 0) {
             }
 
             if (++iter < power_iters) {
+                // A * b0 vanished (nilpotent or zero matrix): the estimate is final.
+                if (b1_norm == 0) break;
+
                 // b0 = b1 / b1_norm
                 b1_norm = 1 / sqrt(b1_norm);
 #pragma omp parallel for
